@@ -144,7 +144,7 @@ pub fn c04(ctx: &CheckCtx) -> CheckResult {
     run_e2(
         ctx,
         &mut res,
-        &[("lock", set, mode.clone()), ("atomic", set, Mode { complete: true, ..mode })],
+        &[("lock", set, mode.clone()), ("lock", "poison", mode.clone()), ("atomic", set, Mode { complete: true, ..mode })],
         // atomics: the total-order claim has both directions — every execution is explained by the
         // log order (Sound) and every SC interleaving's outcome is produced (Missing)
         &[VKind::Sound, VKind::Enabled, VKind::Ending, VKind::Abort, VKind::Missing],
@@ -164,14 +164,21 @@ pub fn c05(ctx: &CheckCtx) -> CheckResult {
         complete: false,
         ..Mode::default()
     };
+    let bounded = Mode {
+        complete: false,
+        preemption_bound: Some(if ctx.tier.is_thorough() { 3 } else { 2 }),
+        max_execs: 400_000,
+        ..Mode::default()
+    };
     run_e2(
         ctx,
         &mut res,
-        &[("sync", set, mode)],
+        &[("sync", set, mode), ("sync", if ctx.tier.is_thorough() { "bounded-big" } else { "bounded" }, bounded)],
         &[VKind::Sound, VKind::Enabled, VKind::Ending, VKind::Abort],
         if ctx.tier.is_thorough() { 1500.0 } else { 50.0 },
     );
-    res.cov("rule", e2_rule());
+    res.cov("preemption_bound_completed_on_bounded_set", if ctx.tier.is_thorough() { 3 } else { 2 });
+    res.cov("rule", format!("{}; the `bounded` set (3-4 condvar waiters with racing notifiers, reused 3-4 party barriers, 4 racing call_once) is explored with ALL schedules of at most b preemptions (b = 2 quick, 3 thorough): trace conformance only, it counts as not full-tree", e2_rule()));
     res.assumptions.push("small-scope: programs up to the stated size only".into());
     res.assumptions.push("reference models of Condvar/Barrier/Once/park written from std's documented contracts (Appendix A of DESIGN.md); no spurious condvar wake-ups, as the property states".into());
     res
@@ -312,8 +319,11 @@ pub fn c03(ctx: &CheckCtx) -> CheckResult {
         max_programs: if ctx.tier.is_thorough() { usize::MAX } else { 700 },
         ..Mode::default()
     };
-    let items: Vec<(&str, &str, Mode)> = ALL_FAMILIES.iter().map(|f| (*f, set, mode.clone())).collect();
-    run_e2(ctx, &mut res, &items, &[VKind::Ending, VKind::Abort], if ctx.tier.is_thorough() { 1500.0 } else { 50.0 });
+    let mut items: Vec<(&str, &str, Mode)> = ALL_FAMILIES.iter().map(|f| (*f, set, mode.clone())).collect();
+    // ending-oriented programs beyond the simplest 700: parked threads together with detached tasks,
+    // detached tasks left running, never-woken futures
+    items.push(("async", "endings", Mode { complete: false, ..Mode::default() }));
+    run_e2(ctx, &mut res, &items, &[VKind::Ending, VKind::Enabled, VKind::Abort], if ctx.tier.is_thorough() { 1500.0 } else { 50.0 });
     // anti-vacuity: how many executions ended in a deadlock report
     res.cov("rule", format!("{}; C03 oracle restricted to the ending of every execution: the deadlock report (with exactly these task ids, detached ones included) must be an ending of some model state consistent with the whole log in which no task can progress (spurious wake-ups not counted) and an attached task is unfinished; a normal ending requires every attached task finished; horizon 20000 steps (a hang would surface as a step-bound failure)", e2_rule()));
     res.assumptions.push("endings are judged only for executions whose steps the model accepts up to the end (a primitive-level mismatch is reported by that primitive's property)".into());
